@@ -205,7 +205,7 @@ pub enum EvK {
   ConsumerBail,
   HoldOpenTimeout,
   /// an idle phase of a consumer: (tokens sent Ok, tokens received, len()) half-way and at the end
-  Pause { rounds: u16, used: u16, mid: Option<(u32, u32, usize)>, end: (u32, u32, usize), cap: usize, producers_done: bool, saw_empty: bool },
+  Pause { rounds: u16, used: u16, mid: Option<(u32, u32, usize)>, end: (u32, u32, usize), cap: usize, producers_done: bool, saw_empty: bool, quiescent: bool },
 }
 
 #[derive(Clone, Debug)]
@@ -482,6 +482,9 @@ pub(crate) fn run_consumer(idx: usize, nprod: usize, c: &Consumer, mut rx: Box<d
               let snap = |rx: &Box<dyn Rx>| (sh.sent_ok.load(Ordering::SeqCst), sh.received.load(Ordering::SeqCst), rx.len().unwrap_or(usize::MAX));
               let mut mid = None;
               let mut used = 0u16;
+              // consecutive rounds in which this thread was the only one that could run at all
+              // (everybody else blocked or parked): a certificate, not a matter of patience
+              let mut alone = 0u16;
               for i in 0..*rounds {
                 if sh.producers_done.load(Ordering::SeqCst) as usize >= nprod {
                   break;
@@ -491,10 +494,15 @@ pub(crate) fn run_consumer(idx: usize, nprod: usize, c: &Consumer, mut rx: Box<d
                 }
                 shuttle::thread::yield_now();
                 used += 1;
+                let ready = crate::core::run::with_sched(|s| s.ready_now).unwrap_or(u32::MAX);
+                alone = if ready <= 1 { alone + 1 } else { 0 };
+                if alone >= 40 {
+                  break;
+                }
               }
               let end = snap(&rx);
               let producers_done = sh.producers_done.load(Ordering::SeqCst) as usize >= nprod;
-              record(actor, hid, inv, EvK::Pause { rounds: *rounds, used, mid, end, cap, producers_done, saw_empty: !*eager });
+              record(actor, hid, inv, EvK::Pause { rounds: *rounds, used, mid, end, cap, producers_done, saw_empty: !*eager, quiescent: alone >= 40 });
             }
             _ => {}
           }
